@@ -8,8 +8,11 @@ git apply "$patch" || { echo "patch does not apply"; exit 2; }
 trap 'git -C /repo checkout -- . ; git -C /repo status --porcelain' EXIT
 cd /verif
 for id in "$@"; do
+  cp evidence/$id.json /tmp/evbak-$id.json 2>/dev/null
   VERIF_KEEP=0 ./check "$id" --tier "${TIER:-quick}" > /tmp/mut-$id.log 2>&1
   rc=$?
   echo "== $id rc=$rc $(grep -c '^VIOLATION' /tmp/mut-$id.log) violations; $(grep -m1 'signature:' /tmp/mut-$id.log)"
   tail -1 /tmp/mut-$id.log
+  cp /tmp/evbak-$id.json evidence/$id.json 2>/dev/null
+  find /verif/replays -name "$id-*.json" -delete
 done
